@@ -118,25 +118,33 @@ def run(tier):
     for focus, labels, doc in space.operation_space(tier):
         if gql.validate(schema, doc):
             continue
-        entries.append({"focus": focus, "labels": labels, "doc": doc, "query": gql.render_doc(doc), "ov": False})
-    ov = [dict(e, ov=True) for e in entries if has_abstract_position(schema, e["doc"])]
+        entries.append({"focus": focus, "labels": labels, "doc": doc, "query": gql.render_doc(doc), "ov": False, "schema": schema, "schema_name": "CORE"})
+    from checks import c07
+    lattice = []
+    for fs in [tuple(c07.FEATURES)] + [(f,) for f in c07.FEATURES]:
+        sch, docs = c07.build(fs)
+        for dname, doc in docs:
+            if not gql.validate(sch, doc):
+                lattice.append({"focus": "lattice " + "+".join(fs), "labels": [dname], "doc": doc, "query": gql.render_doc(doc), "ov": False,
+                                "schema": sch, "schema_name": "lattice " + "+".join(fs)})
+    ov = [dict(e, ov=True) for e in entries + lattice if has_abstract_position(e["schema"], e["doc"])]
     if tier == "quick":
         ov = [e for i, e in enumerate(ov) if i % 2 == 0]
         entries = [e for i, e in enumerate(entries) if i % 2 == 0 or has_abstract_position(schema, e["doc"])]
-    entries = entries + ov
-    resps = generate([gen_request(sdl, e["query"], dict(DEFAULT_OPTS, other_variant=e["ov"])) for e in entries])
+    entries = entries + lattice + ov
+    resps = generate([gen_request(e["schema"].sdl(), e["query"], dict(DEFAULT_OPTS, other_variant=e["ov"])) for e in entries])
     farm = Farm("c03")
     for e, r in zip(entries, resps):
-        e["case"] = farm.add(Case(r["tokens"], [("op", "Op")], prelude="pub type Date = String;")) if r["status"] == "ok" else None
+        e["case"] = farm.add(Case(r["tokens"], [("op", "Op")], prelude="pub type Date = String; pub type Zoned = String; pub type date_time = String;")) if r["status"] == "ok" else None
     farm.build()
     reqs, meta = [], []
     conforming_of = {}
     for e in entries:
         if not e["case"] or not farm.cases[e["case"]].compiles:
             continue
-        ex = gql.Executor(schema, e["doc"])
+        ex = gql.Executor(e["schema"], e["doc"])
         op = e["doc"].ops[0]
-        e["sigs"] = kfpred.c01_sigs(schema, e["doc"])
+        e["sigs"] = kfpred.c01_sigs(e["schema"], e["doc"])
         # one conforming vector per runtime-type choice: the default vector and every single deviation at an '@' point
         vectors = []
         for choices, labels, payload in gql.explore_choices(lambda ch: ex.build_payload(op, ch), 1, 400):
@@ -172,7 +180,7 @@ def run(tier):
             continue
         outcomes[(kind, "accepted" if ok else "rejected")] = outcomes.get((kind, "accepted" if ok else "rejected"), 0) + 1
         distinct.add((e["query"], e["ov"], kfpred.strip_indices(rpath), kind))
-        label = {"schema": "CORE", "query": e["query"], "other_variant": e["ov"], "corruption": kind, "at": rpath, "payload": payload}
+        label = {"schema": e["schema_name"], "query": e["query"], "other_variant": e["ov"], "corruption": kind, "at": rpath, "payload": payload}
         sigs = kfpred.sigs_at(e["sigs"], [rpath])
         key = (e["case"], kind)
         problem = None
